@@ -93,6 +93,16 @@ def same_value(a, b):
     return a.shape == b.shape and a.tobytes() == b.tobytes()
 
 
+def mask_problem(dp, lengths):
+    t = np.asarray(dp.label_switching_cost_template(list(lengths)))
+    total = sum(lengths)
+    want = np.ones(total)
+    want[[c - 1 for c in list(itertools.accumulate(lengths))[:-1]]] = 0.0
+    if t.shape != (total,) or not np.array_equal(t[:total - 1], want[:total - 1]):
+        return f"mask for lengths {list(lengths)} is {t.tolist()}, expected {want.tolist()} (up to the last entry)"
+    return None
+
+
 def work_single_vs_joint(task):
     """(c): same scripted initial labelling through both front ends"""
     from vlib import lib
@@ -126,6 +136,25 @@ def work_single_vs_joint(task):
                 acc.fail(case, f"field {f} differs between single-series and one-element joint run: "
                                f"{getattr(a.result, f)!r} vs {getattr(b.result, f)!r}"[:300])
                 break
+    # the mask helper must still be right AFTER joint runs in this process (no state carried over)
+    from fast_ticc import data_preparation as dp
+    import fast_ticc
+    from vlib.seams import TRACER
+    for beta in (5.0, 0.0):
+        TRACER.begin(init_labels=None, pool_factory="virtual")
+        a = ml.two_regime_series(6, 1, 3)
+        b = ml.two_regime_series(7, 1, 5)
+        try:
+            fast_ticc.ticc_joint_labels([a, b], window_size=2, num_clusters=2, label_switching_cost=beta,
+                                        iteration_limit=1, min_cluster_size=1, biased_covariance=True)
+        except Exception:
+            pass
+        for lengths in ((5, 6), (3, 2, 4), (1, 1), tuple(dj.lengths)):
+            acc.n += 1
+            msg = mask_problem(dp, lengths)
+            if msg:
+                acc.fail({"kind": "mask_after_joint", "beta": beta, "lengths": list(lengths)},
+                         f"after a joint run with beta={beta}: " + msg)
     acc.sample({"kind": "single_vs_joint", "driver": name, "inits": len(inits), "limit": limit})
     return acc.result()
 
@@ -173,6 +202,8 @@ def replay(ctx, case):
     k = case.get("kind")
     if k == "mask":
         ctx.take(work_mask((len(case["lengths"]),)))
+    elif k == "mask_after_joint":
+        ctx.take(work_single_vs_joint(("k2a", 0, [], 20)))
     elif k == "single_vs_joint":
         ctx.take(work_single_vs_joint((case["driver"], case["seed"], [tuple(case["init"])], case["limit"])))
     else:
